@@ -159,10 +159,36 @@ func c08Case(rt *rapid.T, rec *vt.Rec) {
 			}
 		}
 		logf("requester %s keep-alive reporting %v -> tracked peers %v", requester.name, names(rep), names(e.Active))
+		// some time passes before the request: hosts keep checking in (or not), the requester does not report again,
+		// so what it reported stays its tracked peer set
+		if gap := rapid.SampledFrom([]time.Duration{0, 0, 30 * time.Second, 100 * time.Second, 125 * time.Second}).Draw(rt, "gapBeforeRequest"); gap > 0 {
+			time.Sleep(gap)
+			for _, h := range hosts {
+				checksIn := h.Conn != "closed" && rapid.IntRange(0, 3).Draw(rt, "hostChecksIn") > 0
+				if checksIn {
+					s.model.update(s.agents[h.Idx].id.nodeID, nil, 2)
+					if _, err := s.update(h.Idx, nil, 2, false, false); err != nil {
+						fail("host keep-alive: %v", err)
+					}
+					h.age = 0
+				} else {
+					h.age += gap
+				}
+				h.Age = h.age.String()
+			}
+			logf("%s pass; hosts now: %v", gap, func() []string {
+				var o []string
+				for _, h := range hosts {
+					o = append(o, h.Name+" age "+h.Age)
+				}
+				return o
+			}())
+		}
 	}
 	// the request
 	legacy := !reqIsHost && rapid.IntRange(0, 2).Draw(rt, "legacyClient") == 0
-	kind := rapid.SampledFrom([]string{"", "", "geth", "parity"}).Draw(rt, "reqKind")
+	// (kinds the pool does not know - "unknown" is what an agent sends for an undetected node - match no host)
+	kind := rapid.SampledFrom([]string{"", "", "geth", "geth", "parity", "parity", "unknown", "nethermind"}).Draw(rt, "reqKind")
 	supply := 0
 	for _, h := range hosts {
 		if (kind == "" || h.Kind == kind) && h.age < 120*time.Second {
